@@ -44,6 +44,7 @@ type Program struct {
 	Externs   map[string]*Contract     // by full name e.g. "(ariga.io/atlas/sql/migrate.RevisionReadWriter).WriteRevision" or "strings.TrimPrefix"
 	ByFunc    map[*ssa.Function]*Contract
 	RecFuncs  map[*ssa.Function]bool
+	RecFuel   map[*ssa.Function]bool // `rec name fuel`: axiomatised with fuel instead of define-fun-rec
 	Overlay   map[string][]byte
 	srcCache  map[string][]byte
 }
@@ -203,6 +204,9 @@ func Load(cfg LoadConfig) (*Program, error) {
 			merged.Lemmas = append(merged.Lemmas, cf.Lemmas...)
 		}
 		p.Files[pk.PkgPath] = merged
+		if err := inheritViews(merged.Contracts); err != nil {
+			return nil, err
+		}
 		src, err := generateOverlay(pk, fset1, merged)
 		if err != nil {
 			return nil, err
@@ -325,6 +329,7 @@ const prelude = `
 // ---- gvc prelude (intrinsics; bodies are never executed) ----
 func GvcForall[T any](f func(T) bool) bool { panic("gvc") }
 func GvcExists[T any](f func(T) bool) bool { panic("gvc") }
+func GvcSome[T any](f func(T) bool) bool   { panic("gvc") }
 func GvcOld[T any](f func() T) T           { panic("gvc") }
 func GvcHavoc[T any]() T                   { panic("gvc") }
 func GvcAssume(b bool)                     { panic("gvc") }
@@ -375,7 +380,7 @@ func generateOverlay(pk *packages.Package, fset *token.FileSet, cf *ContractFile
 	}
 	b.WriteString("\n// ---- spec helpers ----\n")
 	specText := strings.Join(cf.SpecLines, "\n")
-	if strings.Contains(specText, "(forall ") || strings.Contains(specText, "(exists ") {
+	if strings.Contains(specText, "(forall ") || strings.Contains(specText, "(exists ") || strings.Contains(specText, "(some ") {
 		ds, err := desugarGroups(specText, nil)
 		if err != nil {
 			return nil, fmt.Errorf("spec helpers of %s: %v", pk.PkgPath, err)
@@ -841,6 +846,7 @@ func loopStmts(fd *ast.FuncDecl) []ast.Stmt {
 func (p *Program) resolveContracts() error {
 	p.ByFunc = map[*ssa.Function]*Contract{}
 	p.RecFuncs = map[*ssa.Function]bool{}
+	p.RecFuel = map[*ssa.Function]bool{}
 	for _, path := range sortedKeys(p.Files) {
 		cf := p.Files[path]
 		sp := p.SSAPkgs[path]
@@ -848,11 +854,16 @@ func (p *Program) resolveContracts() error {
 			return fmt.Errorf("no SSA package for %s", path)
 		}
 		for _, r := range cf.Recs {
+			fuel := strings.HasSuffix(r, ":fuel")
+			r = strings.TrimSuffix(r, ":fuel")
 			f := sp.Func(r)
 			if f == nil {
 				return fmt.Errorf("rec %s: no such spec function in %s", r, path)
 			}
 			p.RecFuncs[f] = true
+			if fuel {
+				p.RecFuel[f] = true
+			}
 		}
 		for _, c := range cf.Contracts {
 			if c.Extern {
@@ -871,7 +882,9 @@ func (p *Program) resolveContracts() error {
 				return fmt.Errorf("%s:%d: contract for %s: function not found in SSA", c.File, c.Line, c.Key)
 			}
 			// signature check against the generated functions happens lazily at use.
-			p.ByFunc[fn] = c
+			if c.View == "" {
+				p.ByFunc[fn] = c
+			}
 			p.Contracts[path+"::"+c.Key] = c
 		}
 	}
